@@ -5,14 +5,14 @@ from props.common import *
 ID = "C19"
 RULE = ("each case is a pair of writer runs: a valid call sequence (random document, random presentation, possibly leaving masters open for "
         "the final into_inner) and the same sequence with one failing call inserted at a random position — kinds: tag not allowed here, size "
-        "not representable in the requested width (element and master End), unknown size on a non-master, malformed raw id, End of a master "
+        "not representable in the requested width (element, master End, and flush() closing such a master), unknown size on a non-master, malformed raw id, End of a master "
         "that is not the innermost open one (or none open), Full with an invalid child (first / middle / last, nested); the oracle compares the "
         "final bytes and every other call's result and byte count.  non-trivial = the inserted call failed with a non-I/O error; distinct = distinct pair")
 TRUSTED = TRUSTED_BASE
 ASSUMPTIONS = ASSUME_BASE
 EXHAUSTIVE = {"thorough": "for 60 base sequences: every insertion position x every failing-call kind"}
 
-KINDS = ["notallowed", "width_elem", "width_end", "unknown_nonmaster", "rawid", "close_wrong", "close_none", "full_badchild", "full_badsize", "full_closes_outer"]
+KINDS = ["notallowed", "width_elem", "width_end", "width_flush", "unknown_nonmaster", "rawid", "close_wrong", "close_none", "full_badchild", "full_badsize", "full_closes_outer"]
 BAD_RAW_IDS = [0x1, 0x7F, 0x100, 0x3FFF + 0x1, 0x200000 >> 1, 0x4000000000000000, 0xFFFFFFFFFFFFFFFF]
 
 
@@ -151,6 +151,49 @@ def width_end_case(rng, sp):
     return None
 
 
+def width_flush_case(rng, sp):
+    """flush() while a master started with width 1 holds more than 126 bytes: closing it fails with the size error, after the masters
+    nested inside of it have been closed successfully; the calls that follow (Ends of those inner masters, more children) show whether
+    the failed flush left a trace"""
+    for _ in range(20):
+        ops = []
+        ids = []
+        for depth in range(rng.randint(0, 2)):
+            cands = [i for i in E.allowed_children(sp, ids) if sp.get_type(i) == "M"]
+            if not cands:
+                break
+            m = rng.choice(cands)
+            ops.append((rng.choice(["d", "u"]), ("s", m)))
+            ids.append(m)
+        cands = [i for i in E.allowed_children(sp, ids) if sp.get_type(i) == "M"]
+        if not cands:
+            continue
+        tight = rng.choice(cands)
+        ops.append(("1", ("s", tight)))
+        ids.append(tight)
+        inner = []
+        for depth in range(rng.randint(0, 2)):
+            cands = [i for i in E.allowed_children(sp, ids) if sp.get_type(i) == "M"]
+            if not cands:
+                break
+            m = rng.choice(cands)
+            ops.append((rng.choice(["d", "d", "u", "2"]), ("s", m)))
+            ids.append(m)
+            inner.append(m)
+        fill = [i for i in E.allowed_children(sp, ids) if sp.get_type(i) == "B"]
+        if not fill:
+            continue
+        ops.append(("d", ("b", fill[0], b"q" * rng.choice([127, 130, 200]))))
+        pos = len(ops)
+        # afterwards: close the inner masters (these calls are fine if the flush left no trace), possibly one more child
+        if rng.random() < 0.5:
+            ops.append(("d", ("b", fill[0], b"r" * rng.randint(0, 3))))
+        for m in reversed(inner):
+            ops.append(("d", ("e", m)))
+        return ops, pos, ("F", None)
+    return None
+
+
 def generate(rng, tier):
     cases = []
     thorough = tier == "thorough"
@@ -163,8 +206,8 @@ def generate(rng, tier):
     for k in range(2500 * TH if thorough else 450):
         sp = rng.choice(specs)
         kind = rng.choice(KINDS)
-        if kind == "width_end":
-            r = width_end_case(rng, sp)
+        if kind in ("width_end", "width_flush"):
+            r = (width_end_case if kind == "width_end" else width_flush_case)(rng, sp)
             if r:
                 emit(sp, r[0], r[1], r[2], kind)
             continue
@@ -181,7 +224,7 @@ def generate(rng, tier):
             ops = make_base(rng, sp)[:14]
             for pos in range(len(ops) + 1):
                 for kind in KINDS:
-                    if kind == "width_end":
+                    if kind in ("width_end", "width_flush"):
                         continue
                     fail = failing_op(rng, sp, kind, chain_at(ops, pos))
                     if fail:
